@@ -494,6 +494,19 @@ def main():
     except Exception as e:
         status['vectrans'] = 'failed: %s' % e
     try:
+        import lamtrans
+        g11 = dict(golden)
+        txt, lst = lamtrans.lean_file(g11)
+        changed |= write_if_changed(os.path.join(GEN, 'RatesGen.lean'), txt)
+        for k_, v_ in lst.items():
+            status['functions'][k_] = dict(v_, lean='Rates.' + k_[6:], params=[], bools=[], selfattrs=[], absparams=[], nret=1, abscalls=[])
+        if update:
+            for k_, v_ in g11.items():
+                if k_.startswith('rates:'):
+                    golden[k_] = v_
+    except Exception as e:
+        status['lamtrans'] = 'failed: %s' % e
+    try:
         import cachesites
         txt, sites = cachesites.lean_table(os.environ.get('IXPE_REPO', os.path.dirname(os.path.dirname(importlib.import_module('ixpeobssim').__file__))))
         changed |= write_if_changed(os.path.join(GEN, 'CacheSites.lean'), txt)
